@@ -6,6 +6,8 @@ CONSTANTS
   ColumnMemo = "none"
   ParserScope = "process-wide"
   ScanMemo = "none"
+  OperandScope = "per call"
+  SubqueryColumns = "per table object"
   JobSet = "parser"
 INIT Init
 NEXT Next
